@@ -84,7 +84,10 @@ type inlineCand struct {
 }
 
 func inlinable(fd *ast.FuncDecl, info *types.Info) bool {
-	if fd.Body == nil || fd.Type.TypeParams != nil || len(fd.Body.List) == 0 || len(fd.Body.List) > 80 {
+	if fd.Body == nil || len(fd.Body.List) == 0 || len(fd.Body.List) > 80 {
+		return false
+	}
+	if fd.Type.TypeParams != nil && fd.Recv != nil {
 		return false
 	}
 	if fd.Recv != nil {
@@ -244,7 +247,60 @@ func expandHelpers(modPkgs []*packages.Package, fset *token.FileSet, readSrc fun
 					}
 				}
 				coff := func(pos token.Pos) int { return ctf.Offset(pos) }
-				ctext := func(a, b token.Pos) string { return string(csrc[coff(a):coff(b)]) }
+				// a generic helper: the type arguments of this instantiation replace its type parameters
+				tsub := map[types.Object]string{}
+				if c.fd.Type.TypeParams != nil {
+					var fid *ast.Ident
+					switch fn := call.Fun.(type) {
+					case *ast.Ident:
+						fid = fn
+					case *ast.IndexExpr:
+						fid, _ = fn.X.(*ast.Ident)
+					case *ast.IndexListExpr:
+						fid, _ = fn.X.(*ast.Ident)
+					}
+					inst, okInst := info.Instances[fid]
+					if fid == nil || !okInst || inst.TypeArgs == nil {
+						return "", nil, false
+					}
+					k := 0
+					for _, fld := range c.fd.Type.TypeParams.List {
+						for _, nm := range fld.Names {
+							if k >= inst.TypeArgs.Len() {
+								return "", nil, false
+							}
+							ta := inst.TypeArgs.At(k)
+							k++
+							// only predeclared / same-package types can be written without import bookkeeping
+							str := types.TypeString(ta, func(p *types.Package) string {
+								if p == c.obj.Pkg() {
+									return ""
+								}
+								return "\x00"
+							})
+							if strings.Contains(str, "\x00") {
+								return "", nil, false
+							}
+							if o := info.Defs[nm]; o != nil {
+								tsub[o] = str
+							}
+						}
+					}
+				}
+				typeText := func(e ast.Expr) string {
+					var tes []textEdit
+					ast.Inspect(e, func(n ast.Node) bool {
+						if id, ok := n.(*ast.Ident); ok {
+							if o := info.Uses[id]; o != nil {
+								if r, ok := tsub[o]; ok {
+									tes = append(tes, textEdit{coff(id.Pos()), coff(id.End()), r})
+								}
+							}
+						}
+						return true
+					})
+					return applyEdits(csrc, tes, coff(e.Pos()), coff(e.End()))
+				}
 				site++
 				sfx := fmt.Sprintf("_i%d%d", pass, site)
 				// objects declared by the helper
@@ -262,7 +318,7 @@ func expandHelpers(modPkgs []*packages.Package, fset *token.FileSet, readSrc fun
 				nres := 0
 				if c.fd.Type.Results != nil {
 					for _, fld := range c.fd.Type.Results.List {
-						tt := ctext(fld.Type.Pos(), fld.Type.End())
+						tt := typeText(fld.Type)
 						if len(fld.Names) == 0 {
 							nres++
 							name := fmt.Sprintf("r%d%s", nres, sfx)
@@ -290,7 +346,7 @@ func expandHelpers(modPkgs []*packages.Package, fset *token.FileSet, readSrc fun
 						return "", nil, false
 					}
 					rf := c.fd.Recv.List[0]
-					rt := ctext(rf.Type.Pos(), rf.Type.End())
+					rt := typeText(rf.Type)
 					rx := text(recvExpr.Pos(), recvExpr.End())
 					_, wantPtr := rf.Type.(*ast.StarExpr)
 					_, havePtr := info.TypeOf(recvExpr).Underlying().(*types.Pointer)
@@ -312,7 +368,7 @@ func expandHelpers(modPkgs []*packages.Package, fset *token.FileSet, readSrc fun
 				ai := 0
 				if c.fd.Type.Params != nil {
 					for _, fld := range c.fd.Type.Params.List {
-						tt := ctext(fld.Type.Pos(), fld.Type.End())
+						tt := typeText(fld.Type)
 						names := fld.Names
 						if len(names) == 0 {
 							names = []*ast.Ident{nil}
@@ -367,7 +423,9 @@ func expandHelpers(modPkgs []*packages.Package, fset *token.FileSet, readSrc fun
 							if o == nil {
 								o = info.Uses[x]
 							}
-							if o != nil && declared[o] && x.Name != "_" {
+							if r, isTP := tsub[o]; isTP && o != nil {
+								bedits = append(bedits, textEdit{coff(x.Pos()), coff(x.End()), r})
+							} else if o != nil && declared[o] && x.Name != "_" {
 								bedits = append(bedits, textEdit{coff(x.Pos()), coff(x.End()), x.Name + sfx})
 							}
 						case *ast.ReturnStmt:
